@@ -160,7 +160,13 @@ pub fn check_case(c: &L2Case, prop: &str, rep: &mut Report) -> bool {
             first
         }
         "xz" => {
-            let x = wrap_xz(&data, &e.out, 1);
+            // bytes after the LZMA2 end byte would be block padding / check bytes of the container: the
+            // LZMA2 verdict says nothing about them, so the wrapper only carries the stream proper
+            let l2 = match (e.v, e.consumed) {
+                (Exp::Ok, Some(n)) if n < data.len() => &data[..n],
+                _ => &data[..],
+            };
+            let x = wrap_xz(l2, &e.out, 1);
             (api::xz_bytes(&x), 0)
         }
         a => panic!("api {}", a),
@@ -302,88 +308,207 @@ pub fn replay_export(path: &str, prop: &str, seed: u64, limit: usize, rep: &mut 
     }
 }
 
+/// One random well-formed chunk sequence (without the end byte): stream bytes, offset of every chunk's
+/// control byte, a description of the chunks, total output length.
+fn gen_walk(rng: &mut StdRng, i: usize, max_syms: usize) -> Option<(Vec<u8>, Vec<usize>, Vec<String>, usize)> {
+    let mut chunks: Vec<Chunk> = vec![];
+    let mut offsets: Vec<usize> = vec![];
+    let nch = rng.gen_range(1..7);
+    let mut have_props = false;
+    let mut st = L2State::default();
+    let mut stream: Vec<u8> = vec![];
+    let mut need_props = true;
+    for ci in 0..nch {
+        let first = ci == 0;
+        let kind = rng.gen_range(0..10);
+        if kind < 3 {
+            let n = match rng.gen_range(0..8) {
+                0 => 1,
+                1 => 65536,
+                2 => 65535,
+                _ => rng.gen_range(1..600),
+            };
+            let data: Vec<u8> = (0..n).map(|_| rng.gen_range(0..4) * 60).collect();
+            let reset = first || rng.gen_bool(0.2);
+            if reset {
+                need_props = true;
+            }
+            let ch = Chunk::Raw { reset, data };
+            offsets.push(stream.len());
+            stream.extend_from_slice(&st.push(&ch).bytes);
+            chunks.push(ch);
+        } else {
+            let class: u8 = if first { 3 } else if need_props || !have_props { rng.gen_range(2..4) } else { rng.gen_range(0..4) };
+            let props = if class >= 2 {
+                let t = if i % 2 == 0 { PROPS_TAB[rng.gen_range(0..PROPS_TAB.len())] } else {
+                    let lc = rng.gen_range(0..=4);
+                    (lc, rng.gen_range(0..=(4 - lc)), rng.gen_range(0..=4))
+                };
+                Some(Props { lc: t.0, lp: t.1, pb: t.2 })
+            } else {
+                None
+            };
+            // build a program valid w.r.t. the carried history: generate by trial on a copy
+            let p_eff = props.or(st.props).unwrap_or(Props { lc: 0, lp: 0, pb: 0 });
+            let hist_len = if class == 3 { 0 } else { st.cs.out.len() };
+            let nsyms = match rng.gen_range(0..6) {
+                0 => 1,
+                1 => rng.gen_range(max_syms / 3..max_syms.max(4)),
+                _ => rng.gen_range(2..300.min(max_syms.max(3))),
+            };
+            let prog = chunk_program(rng, &st, class, nsyms, hist_len, p_eff);
+            if prog.is_empty() {
+                continue;
+            }
+            let ch = Chunk::Lzma { class, props, prog };
+            // respect the format's size limits: split is not attempted, oversize chunks are skipped
+            let mut trial = st.clone();
+            let built = trial.push(&ch);
+            if built.unpacked == 0 || built.unpacked > (1 << 21) || built.packed > (1 << 16) {
+                continue;
+            }
+            st = trial;
+            offsets.push(stream.len());
+            stream.extend_from_slice(&built.bytes);
+            if class >= 2 {
+                have_props = true;
+                need_props = false;
+            }
+            chunks.push(ch);
+        }
+    }
+    if chunks.is_empty() {
+        return None;
+    }
+    let kinds: Vec<String> = chunks.iter().map(|c| match c {
+        Chunk::Raw { reset, data } => format!("raw(reset={},{}B)", reset, data.len()),
+        Chunk::Lzma { class, props, prog } => format!("lzma(class={},props={:?},{} syms)", class, props.map(|p| (p.lc, p.lp, p.pb)), prog.len()),
+    }).collect();
+    Some((stream, offsets, kinds, st.total.len() + st.cs.out.len()))
+}
+
 /// Long random chunk sequences (C02): aged probabilities carried / reset across chunks,
 /// matches into earlier chunks, property changes with equal and different lc+lp, size extremes.
 pub fn walks(prop: &str, seed: u64, count: usize, rep: &mut Report) {
     let mut rng = StdRng::seed_from_u64(seed ^ 0x22aa);
     for i in 0..count {
-        let mut chunks: Vec<Chunk> = vec![];
-        let nch = rng.gen_range(1..7);
-        let mut have_props = false;
-        let mut st = L2State::default();
-        let mut stream: Vec<u8> = vec![];
-        let mut need_props = true;
-        for ci in 0..nch {
-            let first = ci == 0;
-            let kind = rng.gen_range(0..10);
-            if kind < 3 {
-                let n = match rng.gen_range(0..8) {
-                    0 => 1,
-                    1 => 65536,
-                    2 => 65535,
-                    _ => rng.gen_range(1..600),
-                };
-                let data: Vec<u8> = (0..n).map(|_| rng.gen_range(0..4) * 60).collect();
-                let reset = first || rng.gen_bool(0.2);
-                if reset {
-                    need_props = true;
-                }
-                let ch = Chunk::Raw { reset, data };
-                stream.extend_from_slice(&st.push(&ch).bytes);
-                chunks.push(ch);
-            } else {
-                let class: u8 = if first { 3 } else if need_props || !have_props { rng.gen_range(2..4) } else { rng.gen_range(0..4) };
-                let props = if class >= 2 {
-                    let t = if i % 2 == 0 { PROPS_TAB[rng.gen_range(0..PROPS_TAB.len())] } else {
-                        let lc = rng.gen_range(0..=4);
-                        (lc, rng.gen_range(0..=(4 - lc)), rng.gen_range(0..=4))
-                    };
-                    Some(Props { lc: t.0, lp: t.1, pb: t.2 })
-                } else {
-                    None
-                };
-                // build a program valid w.r.t. the carried history: generate by trial on a copy
-                let p_eff = props.or(st.props).unwrap_or(Props { lc: 0, lp: 0, pb: 0 });
-                let hist_len = if class == 3 { 0 } else { st.cs.out.len() };
-                let nsyms = match rng.gen_range(0..6) {
-                    0 => 1,
-                    1 => rng.gen_range(2000..6000),
-                    _ => rng.gen_range(2..300),
-                };
-                let prog = chunk_program(&mut rng, &st, class, nsyms, hist_len, p_eff);
-                if prog.is_empty() {
-                    continue;
-                }
-                let ch = Chunk::Lzma { class, props, prog };
-                // respect the format's size limits: split is not attempted, oversize chunks are skipped
-                let mut trial = st.clone();
-                let built = trial.push(&ch);
-                if built.unpacked == 0 || built.unpacked > (1 << 21) || built.packed > (1 << 16) {
-                    continue;
-                }
-                st = trial;
-                stream.extend_from_slice(&built.bytes);
-                if class >= 2 {
-                    have_props = true;
-                    need_props = false;
-                }
-                chunks.push(ch);
-            }
-        }
-        if chunks.is_empty() {
-            continue;
-        }
+        let (mut stream, _offsets, kinds, e_out_len) = match gen_walk(&mut rng, i, 6000) {
+            Some(x) => x,
+            None => continue,
+        };
         stream.push(0);
         for api_name in ["lzma2", "raw", "xz"] {
             let c = L2Case { data_hex: hex(&stream), api: api_name.into(), spec_res: None, spec_why: None, spec_out: None, origin: format!("walk:{}:{}", seed, i) };
-            let e_out_len = st.total.len();
             let ok = check_case(&c, prop, rep);
             if ok && rep.samples.len() < 6 && api_name == "lzma2" && i < 3 {
-                let kinds: Vec<String> = chunks.iter().map(|c| match c {
-                    Chunk::Raw { reset, data } => format!("raw(reset={},{}B)", reset, data.len()),
-                    Chunk::Lzma { class, props, prog } => format!("lzma(class={},props={:?},{} syms)", class, props.map(|p| (p.lc, p.lp, p.pb)), prog.len()),
-                }).collect();
                 rep.sample(json!({"origin": c.origin, "chunks": kinds, "out_len": e_out_len, "stream_bytes": stream.len()}));
+            }
+        }
+    }
+}
+
+/// C17 on long chunk sequences: a well-formed random sequence with one framing fault injected at a random
+/// chunk (the faults of Lzma2.tla's model, instantiated with aged probabilities, carried windows and real sizes).
+/// The verdict comes from the byte-level oracle, so a mutation that happens to stay well-formed is judged as such.
+pub fn fault_walks(prop: &str, seed: u64, count: usize, rep: &mut Report) {
+    let mut rng = StdRng::seed_from_u64(seed ^ 0x17fa);
+    for i in 0..count {
+        let (mut stream, offsets, kinds, _) = match gen_walk(&mut rng, i, 400) {
+            Some(x) => x,
+            None => continue,
+        };
+        stream.push(0);
+        let k = rng.gen_range(0..offsets.len());
+        let off = offsets[k];
+        let ctrl = stream[off];
+        let is_lzma = ctrl >= 0x80;
+        let mut b = stream.clone();
+        let fault = rng.gen_range(0..12);
+        let what: String = match fault {
+            0 => {
+                b[off] = rng.gen_range(3..0x80);
+                format!("control byte of chunk {} -> {:#x}", k, b[off])
+            }
+            1 if is_lzma && (ctrl >> 5) & 3 >= 2 => {
+                b[off + 5] = if rng.gen_bool(0.5) { rng.gen_range(225..=255) } else {
+                    let lc = rng.gen_range(1..=8u8);
+                    let lp = rng.gen_range((5u8.saturating_sub(lc)).max(0)..=4);
+                    let pb = rng.gen_range(0..=4u8);
+                    (pb * 5 + lp) * 9 + lc
+                };
+                format!("props byte of chunk {} -> {}", k, b[off + 5])
+            }
+            2 | 3 if is_lzma => {
+                // unpacked size field (5 + 16 bits) +- delta
+                let cur = (((ctrl & 0x1F) as i64) << 16) | (b[off + 1] as i64) << 8 | b[off + 2] as i64;
+                let d: i64 = [1, -1, 2, -2, 7, -7, 256, -256, 65536, -65536][rng.gen_range(0..10)];
+                let nv = (cur + d).clamp(0, (1 << 21) - 1);
+                b[off] = (ctrl & 0xE0) | ((nv >> 16) as u8 & 0x1F);
+                b[off + 1] = (nv >> 8) as u8;
+                b[off + 2] = nv as u8;
+                format!("declared unpacked size of chunk {} {} -> {}", k, cur + 1, nv + 1)
+            }
+            4 | 5 if is_lzma => {
+                let cur = (b[off + 3] as i64) << 8 | b[off + 4] as i64;
+                let d: i64 = [1, -1, 2, -2, 5, -5, 256, -256][rng.gen_range(0..8)];
+                let nv = (cur + d).clamp(0, 65535);
+                b[off + 3] = (nv >> 8) as u8;
+                b[off + 4] = nv as u8;
+                format!("declared packed size of chunk {} {} -> {}", k, cur + 1, nv + 1)
+            }
+            6 if !is_lzma => {
+                let cur = (b[off + 1] as i64) << 8 | b[off + 2] as i64;
+                let d: i64 = [1, -1, 3, -3, 256][rng.gen_range(0..5)];
+                let nv = (cur + d).clamp(0, 65535);
+                b[off + 1] = (nv >> 8) as u8;
+                b[off + 2] = nv as u8;
+                format!("declared size of uncompressed chunk {} {} -> {}", k, cur + 1, nv + 1)
+            }
+            7 => {
+                let cut = rng.gen_range(off..b.len());
+                b.truncate(cut);
+                format!("stream cut at byte {} (inside / after chunk {})", cut, k)
+            }
+            8 => {
+                b.pop();
+                "end byte missing".to_string()
+            }
+            9 => {
+                let l = b.len();
+                b[l - 1] = rng.gen_range(3..0x80);
+                format!("end byte -> {:#x}", b[l - 1])
+            }
+            10 if is_lzma => {
+                // reset class lowered: a chunk that needs new properties / a dictionary reset does not ask for them
+                let class = (ctrl >> 5) & 3;
+                if class >= 2 {
+                    let nc = rng.gen_range(0..class);
+                    b[off] = 0x80 | (nc << 5) | (ctrl & 0x1F);
+                    if nc < 2 {
+                        b.remove(off + 5);
+                    }
+                    format!("reset class of chunk {} {} -> {}", k, class, nc)
+                } else {
+                    continue;
+                }
+            }
+            11 => {
+                let n = rng.gen_range(1..4);
+                for _ in 0..n {
+                    b.insert(off, rng.gen_range(3..=255));
+                }
+                format!("{} stray bytes before chunk {}", n, k)
+            }
+            _ => continue,
+        };
+        if b == stream {
+            continue;
+        }
+        for api_name in ["lzma2", "raw", "xz"] {
+            let c = L2Case { data_hex: hex(&b), api: api_name.into(), spec_res: None, spec_why: None, spec_out: None, origin: format!("fault-walk:{}:{}:{}", seed, i, what) };
+            let ok = check_case(&c, prop, rep);
+            if ok && rep.samples.len() < 8 && api_name == "lzma2" && i % 7 == 0 {
+                rep.sample(json!({"origin": c.origin, "chunks": kinds, "fault": what}));
             }
         }
     }
